@@ -70,6 +70,15 @@ def gen_prop_value(rng):
     if k < 0.84:
         dt = rng.choice(['<i1', '<i2', '<i4', '<i8', '<u1', '<u2', '<u4', '<u8', '<f4', '<f8'])
         return ['np', dt, gen.gen_values(rng, DT_TO_T[dt], 1).hex()]
+    if k < 0.87:
+        # an explicit wrapper built from a numpy scalar of another (possibly same-width) type
+        name = rng.choice([n for n, t in WRAP_TYPES.items() if t in fmt.INT_RANGE or t in ('f32', 'f64')])
+        t = WRAP_TYPES[name]
+        dt = rng.choice(['<i1', '<i2', '<i4', '<i8', '<u1', '<u2', '<u4', '<u8'] + (['<f4', '<f8'] if t in ('f32', 'f64') else []))
+        lo, hi = fmt.INT_RANGE.get(t, (-1000, 1000))
+        dlo, dhi = fmt.INT_RANGE.get(DT_TO_T[dt], (-1000, 1000))
+        v = rng.randint(max(lo, dlo, -1000), min(hi, dhi, 1000))
+        return ['wrapnp', name, dt, v]
     if k < 0.94:
         name = rng.choice(list(WRAP_TYPES))
         t = WRAP_TYPES[name]
@@ -295,6 +304,8 @@ def make_value(nptdms, pv):
         return np.frombuffer(bytes.fromhex(pv[2]), dtype=pv[1])[0]
     if k == 'wrap':
         return getattr(nptdms.types, pv[1])(pv[2])
+    if k == 'wrapnp':
+        return getattr(nptdms.types, pv[1])(np.dtype(pv[2]).type(pv[3]))
     if k == 'tdmsts':
         return nptdms.timestamp.TdmsTimestamp(pv[1], pv[2])
     raise ValueError(k)
@@ -376,6 +387,11 @@ def expected_prop(pv):
         if t in ('f32', 'f64'):
             return t, struct.pack('<f' if t == 'f32' else '<d', pv[2])
         return t, pv[2]
+    if k == 'wrapnp':
+        t = WRAP_TYPES[pv[1]]
+        if t in ('f32', 'f64'):
+            return t, struct.pack('<f' if t == 'f32' else '<d', float(pv[3]))
+        return t, pv[3]
     if k == 'tdmsts':
         return 'ts', [pv[1], pv[2]]
     raise ValueError(k)
